@@ -6,8 +6,10 @@ Mode E1 over the full product of member alphabets, stateless DFS over all append
 (no state merging, so hidden-state corruption shows up in the futures), lock-step with a list+set model.
 """
 import itertools
+import json
 
 import pjrpc
+import pjrpc.server          # (a process that also serves: whatever the server modules register is in effect)
 from pjrpc.common import UNSET, BatchRequest, BatchResponse, Request, Response
 from pjrpc.common.exceptions import DeserializationError, IdentityError, JsonRpcError
 
@@ -15,7 +17,8 @@ from mc.refmodel import wire
 from mc.refmodel.server import typed_eq
 
 A = '__absent__'
-MEMBER = [A, None, True, False, 0, 1, -1, 1.0, 1.5, 2.0, '', 'a', '2.0', '1.0', [], [1], {}, {'a': 1}]
+INF, NAN = '__inf__', '__nan__'          # markers for the non-finite floats json.loads produces for Infinity / NaN (revived when a case runs)
+MEMBER = [A, None, True, False, 0, 1, -1, 1.0, 1.5, 2.0, INF, NAN, '', 'a', '2.0', '1.0', [], [1], {}, {'a': 1}]
 MEMBER_S = [A, None, 1, 1.5, 2.0, 'a', '2.0', [], {'a': 1}]
 ERRORS = [A, None, 1, 'e', [], {},
           {'code': 1, 'message': 'm'}, {'code': 1, 'message': 'm', 'data': None}, {'code': -32601, 'message': 'x', 'data': [1]},
@@ -23,6 +26,16 @@ ERRORS = [A, None, 1, 'e', [], {},
           {'code': 1.5, 'message': 'm'}, {'code': True, 'message': 'm'}, {'code': 0, 'message': ''},
           {'code': 1, 'message': 1}, {'code': None, 'message': 'm'}, {'code': 2 ** 70, 'message': 'm', 'extra': 1}]
 NONOBJ = [None, True, False, 0, 1, 1.5, '', 'a', [], [1], ['a', 1]]
+
+
+def revive(v):
+    if isinstance(v, str):
+        return float('inf') if v == INF else (float('nan') if v == NAN else v)
+    if isinstance(v, list):
+        return [revive(x) for x in v]
+    if isinstance(v, dict):
+        return {k: revive(x) for k, x in v.items()}
+    return v
 
 
 def absent(v):
@@ -44,7 +57,7 @@ def error_class(e):
     if isinstance(c, bool) or not isinstance(c, (int, float)):
         return 'invalid'
     if isinstance(c, float):
-        return 'lenient' if c == int(c) else 'invalid'
+        return 'lenient' if (c == c and c not in (float('inf'), float('-inf')) and c == int(c)) else 'invalid'
     return 'valid'
 
 
@@ -128,7 +141,7 @@ def gen_base(ctx, MEMBER, full):
         yield dict(part='request', doc=mk(jsonrpc=j, id=i, method=m, params=p))
     for j, i, r, e in itertools.product(MEMBER, MEMBER, MEMBER, ERRORS):
         yield dict(part='response', doc=mk(jsonrpc=j, id=i, result=r, error=e))
-    for c, m, d in itertools.product(MEMBER + [2 ** 70, -32601, -32000, -32000.0, -32000.5], MEMBER, MEMBER):
+    for c, m, d in itertools.product(MEMBER + [2 ** 70, -32601, -32602, -32603, -32600, -32700, -32000, -32000.0, -32000.5], MEMBER, MEMBER):
         yield dict(part='error', doc=mk(code=c, message=m, data=d))
     # members nested deeply (below what json.loads itself accepts): deserialisation never walks into params / result / data
     for depth in (100, 400, 600, 900, 1200, 1400) if full else ():
@@ -441,6 +454,8 @@ RUN = dict(request=run_request, response=run_response, error=run_error, batchreq
 def run_case(case, rec):
     from mc.core import Recorder
     r = Recorder()
+    if 'doc' in case:
+        case = dict(case, doc=revive(case['doc']))
     if case.get('werr'):
         import warnings
         with warnings.catch_warnings():
@@ -458,6 +473,28 @@ def run_case(case, rec):
     return obs
 
 
+def run_optimised(ctx):
+    """the interpreter configuration as a dimension: a child `python -O` (asserts stripped) deserialises requests / responses / errors over
+    a small member alphabet; strictness and totality must not rest on assert statements"""
+    import os
+    import subprocess
+    import sys
+    repo = os.path.dirname(os.path.dirname(os.path.abspath(pjrpc.__file__)))
+    verif = os.path.dirname(os.path.dirname(os.path.abspath(__file__)))
+    r = subprocess.run([sys.executable, '-O', os.path.join(verif, 'props', 'c06_opt.py'), repo, verif], stdout=subprocess.PIPE, stderr=subprocess.PIPE, text=True, timeout=600)
+    try:
+        out = json.loads(r.stdout.strip().splitlines()[-1])
+    except Exception:   # noqa
+        from mc.core import HarnessError
+        raise HarnessError('the python -O child did not report: %s' % (r.stderr[-400:] or r.stdout[-400:]))
+    ctx.guard('the child interpreter ran with assertions stripped', out.get('optimised') is True and out.get('evaluated', 0) > 500, out)
+    ctx.rec.transitions += out['evaluated']
+    ctx.rec.counters['messages deserialised under python -O'] += out['evaluated']
+    for what, doc, cls, got in out['bad']:
+        ctx.rec.violation('C06:%s:%s under python -O' % (what, 'structurally invalid message accepted' if got == 'ok' else got.replace('other:', '') + ' escaped from_json'),
+                          dict(part='optimised', what=what, doc=doc), expected='DeserializationError' if cls == 'invalid' else 'message object or DeserializationError', observed=got)
+
+
 def run(ctx):
     ctx.rule = ('E1: request objects = product of %d-value member alphabets for jsonrpc x id x method x params; response '
                 'objects = jsonrpc x id x result x %d error shapes; error objects = code x message x data; every non-object '
@@ -468,6 +505,7 @@ def run(ctx):
     ctx.assumptions += ['L2: fractional ids / integral-float codes may be accepted or refused; a missing response id and an '
                         'empty response array are not listed as invalid by the statement (either outcome accepted)']
     ctx.run_cases('C06', lambda: gen_cases(ctx), run_case, recheck_every=4001)
+    run_optimised(ctx)
     oc = ctx.rec.outcomes
     ctx.guard('valid accepted, invalid refused, duplicates refused',
               oc.get('request:valid:ok', 0) > 0 and oc.get('request:invalid:deser', 0) > 0 and
